@@ -74,7 +74,7 @@ theorem leafOK_check {a lvt : Nat} {data : Bytes} (h : leafOK a lvt data = true)
     leafCheck a ⟨.app, a, lvt, data⟩ = .ok () := by
   unfold leafOK at h
   simp only [Bool.and_eq_true] at h
-  obtain ⟨h1, _⟩ := h
+  obtain ⟨⟨h1, _⟩, _⟩ := h
   split at h1
   · assumption
   · simp at h1
@@ -89,7 +89,7 @@ theorem leafOK_bool {lvt : Nat} {data : Bytes} (h : leafOK 1 lvt data = true) : 
   have hc := leafOK_check h
   unfold leafOK at h
   simp only [Bool.and_eq_true, ↓reduceIte, List.isEmpty_iff] at h
-  refine ⟨?_, h.2⟩
+  refine ⟨?_, h.1.2⟩
   simp only [leafCheck, ne_eq, not_true_eq_false, or_self, ↓reduceIte] at hc
   split at hc
   · simp at hc
@@ -99,6 +99,11 @@ theorem leafOK_len {a lvt : Nat} {data : Bytes} (h : leafOK a lvt data = true) (
     lvt = data.length := by
   unfold leafOK at h
   simp only [Bool.and_eq_true, ha, ↓reduceIte, beq_iff_eq] at h
+  exact h.1.2
+
+theorem leafOK_fits {a lvt : Nat} {data : Bytes} (h : leafOK a lvt data = true) : lvt < 4294967296 := by
+  unfold leafOK at h
+  simp only [Bool.and_eq_true, decide_eq_true_eq] at h
   exact h.2
 
 /-- application-tagged leaf: `klass(tag).value` gives the payload back -/
